@@ -69,8 +69,4 @@ def run(tier):
 
 
 def replay(path):
-    import json
-    d = json.load(open(path))
-    for m in d["violations"]:
-        core.log(json.dumps(m)[:400])
-    return 1 if d["violations"] else 0
+    return core.replay_generic(path)
